@@ -3,6 +3,7 @@ use crate::evidence::CheckResult;
 use crate::known::Known;
 use crate::runner::{run_part, Part, Tier};
 
+pub mod c01;
 pub mod c04;
 pub mod c05;
 pub mod c06;
@@ -35,7 +36,7 @@ pub fn parts(prop: &str) -> Vec<Box<dyn Part>> {
     }
 }
 
-pub const ALL: [&str; 12] = ["C04", "C05", "C06", "C10", "C12", "C13", "C14", "C15", "C16", "C17", "C18", "C19"];
+pub const ALL: [&str; 13] = ["C01", "C04", "C05", "C06", "C10", "C12", "C13", "C14", "C15", "C16", "C17", "C18", "C19"];
 
 pub fn assumptions(prop: &str) -> Vec<String> {
     let mut v = vec![
@@ -49,10 +50,24 @@ pub fn assumptions(prop: &str) -> Vec<String> {
     v
 }
 
+/// Compile-and-run parts (E2).
+pub fn e2_parts(prop: &str) -> Vec<Box<dyn crate::e2::E2Part>> {
+    match prop {
+        "C01" => c01::e2_parts(),
+        _ => vec![],
+    }
+}
+
 pub fn check(prop: &str, tier: Tier, seed: u64, known: &Known) -> CheckResult {
     let mut res = CheckResult { prop: prop.to_string(), parts: vec![], assumptions: assumptions(prop), known_lines: vec![], inconclusive: None };
     for p in parts(prop) {
         res.parts.push(run_part(p.as_ref(), tier, seed, known));
+    }
+    for p in e2_parts(prop) {
+        match crate::e2::run_e2_part(p.as_ref(), tier, seed, known) {
+            Ok(st) => res.parts.push(st),
+            Err(e) => res.inconclusive = Some(e),
+        }
     }
     match prop {
         "C18" => c18::run(&mut res, tier, seed, known),
@@ -79,6 +94,11 @@ pub fn replay_file(prop: &str, file: &str, known: &Known, strict: bool) -> Resul
                 crate::runner::Verdict::Fail { msg, .. } => Some(msg),
                 _ => None,
             });
+        }
+    }
+    for p in e2_parts(prop) {
+        if p.name() == part {
+            return crate::e2::replay_e2(p.as_ref(), &tape, known, strict);
         }
     }
     replay_special(prop, part, &tape, known, strict)
